@@ -275,6 +275,14 @@ fn err_reply(e: &MuxerError) -> String {
     };
     // exercise the Display implementation too (C12: formatting code is only covered here)
     let _ = format!("{} {:?}", e, e);
+    if let InvalidAdtsDetailed { error, .. } = e {
+        // the detailed ADTS error is reachable through the public enum: its methods are public surface
+        let _ = error.to_json();
+        let _ = error.to_json_compact();
+        let _ = error.is_critical();
+        let _ = error.all_errors().len();
+        let _ = format!("{} {:?}", error, error);
+    }
     match idx {
         Some(i) => format!("err:{}:{}", name, i),
         None => format!("err:{}:-", name),
@@ -317,6 +325,7 @@ struct PCfg {
     sinkty: String,
     novideo: bool,
     twin: String,
+    bops: Option<String>,
 }
 
 fn parse_pcfg(tokens: &[&str]) -> PCfg {
@@ -336,6 +345,7 @@ fn parse_pcfg(tokens: &[&str]) -> PCfg {
         sinkty: "test".into(),
         novideo: false,
         twin: "none".into(),
+        bops: None,
     };
     for t in tokens {
         let (k, v) = t.split_once('=').expect("k=v");
@@ -372,6 +382,7 @@ fn parse_pcfg(tokens: &[&str]) -> PCfg {
             "sinkty" => c.sinkty = v.to_string(),
             "novideo" => c.novideo = v == "1",
             "twin" => c.twin = v.to_string(),
+            "bops" => c.bops = Some(v.to_string()),
             "grp" => {}
             _ => panic!("cfg key {}", k),
         }
@@ -379,7 +390,67 @@ fn parse_pcfg(tokens: &[&str]) -> PCfg {
     c
 }
 
+fn opt_string(v: &str) -> Option<String> {
+    if v == "~" {
+        None
+    } else {
+        Some(String::from_utf8(unhex(v)).expect("utf8"))
+    }
+}
+
+/// an explicit builder call sequence (`bops=`): calls separated by ',', fields by ':'
+fn apply_bops<W>(mut b: MuxerBuilder<W>, bops: &str, fps: f64) -> MuxerBuilder<W> {
+    for op in bops.split(',').filter(|s| !s.is_empty()) {
+        let f: Vec<&str> = op.split(':').collect();
+        b = match f[0] {
+            "v" => b.video(parse_vcodec(f[1]), f[2].parse().unwrap(), f[3].parse().unwrap(), fps),
+            "sv" => b.set_video_track(parse_vcodec(f[1]), f[2].parse().unwrap(), f[3].parse().unwrap(), fps),
+            "a" => b.audio(parse_acodec(f[1]), f[2].parse().unwrap(), f[3].parse().unwrap()),
+            "sa" => b.set_audio_track(parse_acodec(f[1]), f[2].parse().unwrap(), f[3].parse().unwrap()),
+            "md" => {
+                let mut m = Metadata::new();
+                if let Some(t) = opt_string(f[1]) {
+                    m = m.with_title(t);
+                }
+                if f[2] != "~" {
+                    m = m.with_creation_time(f[2].parse().unwrap());
+                }
+                if let Some(l) = opt_string(f[3]) {
+                    m = m.with_language(l);
+                }
+                b.with_metadata(m)
+            }
+            "fs" => b.with_fast_start(f[1] == "1"),
+            "sps" => b.with_sps(unhex(f[1])),
+            "pps" => b.with_pps(unhex(f[1])),
+            "vps" => b.with_vps(unhex(f[1])),
+            "av1" => b.with_av1_sequence_header(unhex(f[1])),
+            "vp9" => {
+                let x: Vec<u32> = f[1].split('.').map(|x| x.parse().unwrap()).collect();
+                b.with_vp9_config(Vp9Config {
+                    width: x[0],
+                    height: x[1],
+                    profile: x[2] as u8,
+                    bit_depth: x[3] as u8,
+                    color_space: x[4] as u8,
+                    transfer_function: x[5] as u8,
+                    matrix_coefficients: x[6] as u8,
+                    level: x[7] as u8,
+                    full_range_flag: x[8] as u8,
+                })
+            }
+            "ct" => b.set_create_time(f[1].parse().unwrap()),
+            "lg" => b.set_language(opt_string(f[1]).unwrap_or_default()),
+            other => panic!("bop {}", other),
+        };
+    }
+    b
+}
+
 fn build_muxer<W: Write>(c: &PCfg, w: W) -> Result<Muxer<W>, MuxerError> {
+    if let Some(bops) = &c.bops {
+        return apply_bops(MuxerBuilder::new(w), bops, c.fps).build();
+    }
     let mut b = MuxerBuilder::new(w);
     let set = c.path == "set" || c.path == "setonly" || c.path == "setrev";
     if !c.novideo {
@@ -608,6 +679,7 @@ fn parse_fcfg(tokens: &[&str]) -> (Option<FragmentConfig>, Option<FragmentedMuxe
     let mut vp9: Option<Vp9Config> = None;
     let mut via = "direct".to_string();
     let mut codec = VideoCodec::H264;
+    let mut bops = String::new();
     for t in tokens {
         let (k, v) = t.split_once('=').expect("k=v");
         match k {
@@ -636,9 +708,19 @@ fn parse_fcfg(tokens: &[&str]) -> (Option<FragmentConfig>, Option<FragmentedMuxe
                 }
             }
             "via" => via = v.to_string(),
+            "bops" => bops = v.to_string(),
             "codec" => codec = parse_vcodec(v),
             _ => panic!("fcfg key {}", k),
         }
+    }
+    if via == "bops" {
+        return match apply_bops(MuxerBuilder::new(Vec::<u8>::new()), &bops, 30.0).new_with_fragment() {
+            Ok(m) => (None, Some(m), String::new()),
+            Err(e) => (None, None, err_reply(&e)),
+        };
+    }
+    if via == "default" {
+        return (Some(FragmentConfig::default()), None, String::new());
     }
     if via == "builder" {
         let mut b = MuxerBuilder::new(Vec::<u8>::new()).video(codec, w, h, 30.0);
@@ -677,13 +759,20 @@ fn parse_fcfg(tokens: &[&str]) -> (Option<FragmentConfig>, Option<FragmentedMuxe
     }
 }
 
+fn build_f(cfg_s: &str) -> Result<FragmentedMuxer, String> {
+    let (cfg, built, err) = parse_fcfg(&cfg_s.split_whitespace().collect::<Vec<_>>());
+    match (cfg, built) {
+        (Some(c), _) => Ok(FragmentedMuxer::new(c)),
+        (None, Some(m)) => Ok(m),
+        (None, None) => Err(format!("build{}", err)),
+    }
+}
+
 fn run_f(rest: &str) -> String {
     let (cfg_s, ops_s) = rest.split_once('|').unwrap_or((rest, ""));
-    let (cfg, built, err) = parse_fcfg(&cfg_s.split_whitespace().collect::<Vec<_>>());
-    let mut m = match (cfg, built) {
-        (Some(c), _) => FragmentedMuxer::new(c),
-        (None, Some(m)) => m,
-        (None, None) => return format!("build{}", err),
+    let mut m = match build_f(cfg_s) {
+        Ok(m) => m,
+        Err(e) => return e,
     };
     let ops: Vec<&str> = ops_s.split(';').map(|s| s.trim()).filter(|s| !s.is_empty()).collect();
     let mut out = Vec::new();
@@ -705,6 +794,11 @@ fn run_f(rest: &str) -> String {
                 "fready" => format!("b:{}", if m.ready_to_flush() { 1 } else { 0 }),
                 "fdur" => format!("n:{}", m.current_fragment_duration_ms()),
                 "finit" => format!("init:{}", hex(&m.init_segment())),
+                // the init segment of a NEW muxer with the same configuration, requested at this moment
+                "finitfresh" => match build_f(cfg_s) {
+                    Ok(mut fresh) => format!("init:{}", hex(&fresh.init_segment())),
+                    Err(e) => e,
+                },
                 _ => panic!("bad fop"),
             }
         }));
